@@ -242,6 +242,48 @@ func poolBigInner(cfg2 *geometry.IndexOptions) (outers, inners []*shp) {
 			}
 		}
 	}
+	// rings on either side of the 16-position shortcut, with and without the
+	// repeated closing vertex (the same point set stored in n and n+1
+	// positions): the disc with one or two vertices dropped (15, 14 distinct)
+	// and with one inserted (17), at every other offset
+	variants := map[string][][2]int64{
+		"disc15": append(append([][2]int64{}, disc[:12]...), disc[13:]...),
+		"disc14": append(append([][2]int64{}, disc[:5]...), append(append([][2]int64{}, disc[6:12]...), disc[13:]...)...),
+		"disc17": append(append(append([][2]int64{}, disc[:4]...), [2]int64{8, 4}), disc[4:]...), // placeholder, replaced below
+	}
+	// 17 distinct: split the edge (8,6)-(7,7) at no lattice point is impossible on integers; use a spike instead
+	variants["disc17"] = append(append(append([][2]int64{}, disc[:5]...), [2]int64{9, 5}), disc[5:]...)
+	variants["disc17"][4] = [2]int64{8, 5}
+	for _, tag := range []string{"disc14", "disc15", "disc17"} {
+		v := variants[tag]
+		for dx := int64(-2); dx <= 2; dx += 2 {
+			for dy := int64(-2); dy <= 2; dy += 2 {
+				var ring []exact.P
+				for _, p := range v {
+					ring = append(ring, exact.P{X: p[0]*2 + dx*2, Y: p[1]*2 + dy*2})
+				}
+				if !exact.Simple(ring) {
+					continue
+				}
+				closed := append(append([]exact.P{}, ring...), ring[0])
+				for ci, e := range [][]exact.P{closed, ring} {
+					a := mkShp(&exact.Shape{Kind: exact.KPoly, Ext: e}, cfg2)
+					a.tag = tag + []string{"-closed", "-unclosed"}[ci]
+					inners = append(inners, a)
+				}
+			}
+		}
+	}
+	// the 16-gon itself without its closing vertex (16 positions instead of 17)
+	{
+		var ring []exact.P
+		for _, p := range disc {
+			ring = append(ring, exact.P{X: p[0] * 2, Y: p[1] * 2})
+		}
+		a := mkShp(&exact.Shape{Kind: exact.KPoly, Ext: ring}, cfg2)
+		a.tag = "disc16-unclosed"
+		inners = append(inners, a)
+	}
 	add := func(tag string, ext []exact.P, holes ...[]exact.P) {
 		if v, _, sh := exact.ValidPoly(ext, holes); !v || sh {
 			return
@@ -281,6 +323,10 @@ func poolBigInner(cfg2 *geometry.IndexOptions) (outers, inners []*shp) {
 	add("L", H2(0, 0, 20, 0, 20, 10, 10, 10, 10, 20, 0, 20, 0, 0))
 	add("hole-inside-disc", H2(0, 0, 20, 0, 20, 20, 0, 20, 0, 0), H2(9, 9, 11, 9, 11, 11, 9, 11, 9, 9))
 	add("hole-at-disc-edge", H2(0, 0, 20, 0, 20, 20, 0, 20, 0, 0), H2(15, 9, 18, 9, 18, 11, 15, 11, 15, 9))
+	// frames: the inner shape lies in the hole and touches its boundary from inside (or crosses it, for the offsets)
+	add("frame-hole-touching-disc", H2(-6, -6, 26, -6, 26, 26, -6, 26, -6, -6), H2(4, 4, 16, 4, 16, 16, 4, 16, 4, 4))
+	add("frame-hole-around-disc", H2(-6, -6, 26, -6, 26, 26, -6, 26, -6, -6), H2(2, 2, 18, 2, 18, 18, 2, 18, 2, 2))
+	add("frame-hole-spike-reach", H2(-6, -6, 26, -6, 26, 26, -6, 26, -6, -6), H2(4, 4, 18, 4, 18, 16, 4, 16, 4, 4))
 	add("hole-outside-disc", H2(0, 0, 24, 0, 24, 24, 0, 24, 0, 0), H2(19, 19, 22, 19, 22, 22, 19, 22, 19, 19))
 	return
 }
